@@ -182,6 +182,16 @@ def run_driver(lines):
 # implementation side (real pyp0f from the working tree, in worker processes)
 # --------------------------------------------------------------------------------------------
 
+def _worker_init():
+    import resource
+    # a runaway allocation in the code under test must not take the machine down
+    lim = 6 * 1024**3
+    try:
+        resource.setrlimit(resource.RLIMIT_AS, (lim, lim))
+    except (ValueError, OSError):
+        pass
+
+
 def _impl_chunk(lines):
     from . import impl
     return [impl.answer(l) for l in lines]
@@ -194,17 +204,18 @@ def pool():
     global _POOL
     if _POOL is None:
         n = min(16, os.cpu_count() or 4)
-        _POOL = mp.get_context("fork").Pool(n)
+        _POOL = mp.get_context("fork").Pool(n, initializer=_worker_init)
     return _POOL
 
 
 def run_impl(lines, chunk=400):
     if not lines:
         return []
-    if len(lines) <= 50:
-        return _impl_chunk(lines)
     chunks = [lines[i:i + chunk] for i in range(0, len(lines), chunk)]
-    res = pool().map(_impl_chunk, chunks)
+    try:
+        res = pool().map_async(_impl_chunk, chunks).get(timeout=3000)
+    except mp.TimeoutError:
+        raise Infra("implementation workers did not answer within 3000 s")
     return [a for r in res for a in r]
 
 
@@ -225,7 +236,7 @@ def known_findings(prop):
     p = os.path.join(VERIF, "known_findings.json")
     if not os.path.exists(p):
         return []
-    return [f for f in json.load(open(p)) if f.get("property") == prop and f.get("status") == "open"]
+    return [f for f in json.load(open(p)) if (f.get("property") == prop or prop in f.get("also_seen_by", [])) and f.get("status") == "open"]
 
 
 def write_evidence(prop, tier, seed, coverage, assumptions, wall, violations):
